@@ -149,7 +149,8 @@ def make_case(tier, seed, index):
                            "what": {"whole": 1}})
     case = {"kind": "random", "framing": fr, "cmd": cmd, "pclass": cl, "pseed": rnd.randrange(1 << 16),
             "comm_addr": rnd.randrange(256), "trailing": trailing, "timeout": tau, "retries": r,
-            "keep_alive": rnd.random() < 0.5, "faults": faults, "by_name": rnd.random() < 0.25}
+            "keep_alive": rnd.random() < 0.5, "faults": faults, "by_name": rnd.random() < 0.25,
+            "answer_addr": rnd.choice([None, None, None, 0x00, 0x01, 0x7F, 0xF7, 0xFF, rnd.randrange(256)])}
     if fr in ("rtu", "tcp") and not faults and not trailing and rnd.random() < 0.4:
         # history: an EARLIER read on the same object lost the tail of its fragmented answer (and succeeded on the
         # retry); the missing tail had exactly the length of this request's conforming answer
@@ -175,6 +176,8 @@ def simplify(case):
         out.append(dict(case, trailing=""))
     if case.get("by_name"):
         out.append(dict(case, by_name=False))
+    if case.get("answer_addr") is not None:
+        out.append(dict(case, answer_addr=None))
     return out
 
 
@@ -228,6 +231,8 @@ def run_case(case):
     world.net.begin_script(faults, default)
     world.net.add_device(C.HOST, C.port_of(tr), dev)
     world.net.add_host(C.HOSTNAME, C.HOST)
+    if case.get("answer_addr") is not None and hasattr(dev, "comm_addr"):
+        dev.answer_addr = case["answer_addr"]   # "any comm address": the answer carries another unit id than the request
     # a quarter of the seeded cases address the inverter by host name: answers then come from the numeric address
     proto = C.make_protocol(tr, tau, r, case["keep_alive"], case["comm_addr"],
                             host=C.HOSTNAME if case.get("by_name") else C.HOST)
